@@ -360,6 +360,8 @@ type State struct {
 	ExecFlags    fast.ExecFlags
 	DeferOfFun   bool // non-nil
 	PanicFun     bool // non-nil
+	PanicFunPooled   bool // Run.PanicFun is one of the frames in Run.Pool (free for reuse)
+	DeferOfFunPooled bool
 	InstallDefer bool // non-nil
 	Interrupt    bool // non-nil
 	Signals      base.Signals
@@ -381,11 +383,25 @@ func (s *Session) State() State {
 	if run.CurrEnv != nil {
 		st.CurrDepth = run.CurrEnv.CallDepth
 	}
+	for i := 0; i < run.PoolSize && i < len(run.Pool); i++ {
+		if e := run.Pool[i]; e != nil {
+			if e == run.PanicFun {
+				st.PanicFunPooled = true
+			}
+			if e == run.DeferOfFun {
+				st.DeferOfFunPooled = true
+			}
+		}
+	}
 	return st
 }
 
 func (st State) String() string {
-	return fmt.Sprintf("{currEnvNil=%v depth=%d execFlags=%d deferOfFun=%v panicFun=%v installDefer=%v interrupt=%v signals=%d/%d/%d debugDepth=%d}",
+	pooled := ""
+	if st.PanicFunPooled {
+		pooled = " panicFun-is-in-frame-pool"
+	}
+	return pooled + fmt.Sprintf("{currEnvNil=%v depth=%d execFlags=%d deferOfFun=%v panicFun=%v installDefer=%v interrupt=%v signals=%d/%d/%d debugDepth=%d}",
 		st.CurrEnvNil, st.CurrDepth, st.ExecFlags, st.DeferOfFun, st.PanicFun, st.InstallDefer, st.Interrupt,
 		st.Signals.Sync, st.Signals.Debug, st.Signals.Async, st.DebugDepth)
 }
